@@ -327,8 +327,12 @@ class Run:
         return tuple(s.w for s in self.steps)
 
     def observations(self):
-        """Everything observable, for the determinism re-run comparison."""
-        return [self.status, self.obs0, [[s.w, list(s.eligible), s.ev, s.blocked, s.obs] for s in self.steps]]
+        """What the determinism re-run compares: the structure of the run (who ran, who was eligible, which points were
+        passed, how each step ended, returned results, exception types, the task's view of the shared state).  Free
+        text (exception messages) is left out: it may quote values the implementation stores, e.g. timestamps."""
+        keep = ("ev", "kind", "info", "passed", "flags", "result", "type", "killed")
+        return [self.status, self.obs0,
+                [[s.w, list(s.eligible), {k: s.ev[k] for k in keep if k in s.ev}, s.blocked, s.obs] for s in self.steps]]
 
 
 class Group:
@@ -388,8 +392,12 @@ class Group:
             if ev.get("ev") != "reset":
                 raise SchedError("reset answered %r" % (ev,))
 
-    def run(self, n, prefix, fresh, observe, strict=False):
+    def run(self, n, prefix, fresh, observe, strict=False, lazy=True):
         """Execute one schedule: forced choices `prefix`, then (unless strict) lowest-eligible-first.
+
+        lazy=True: a worker's first step is [prologue + first point] (see module docstring).  lazy=False: its first step
+        is the prologue alone (it pauses AT its first point), for initial states in which the prologue does not commute
+        with the other workers' steps (e.g. it reads a schema another worker may change).
 
         fresh(group) -> arg handed to every worker's wk_run;  observe(group) -> JSON-able view of the shared state.
         """
@@ -418,7 +426,7 @@ class Group:
                     w = eligible[0]
                 wk = self.workers[w]
                 if status[w] == "idle":
-                    wk.send({"cmd": "run", "arg": arg, "lazy": True})
+                    wk.send({"cmd": "run", "arg": arg, "lazy": bool(lazy)})
                 else:
                     wk.send({"cmd": "go"})
                 status[w] = "running"
@@ -630,7 +638,7 @@ class Exploration:
         return sorted(p for p, (el, bl) in self.nodes.items() if el and set(el) == bl)
 
 
-def explore(pool, n, fresh, observe, rerun=True):
+def explore(pool, n, fresh, observe, rerun=True, lazy=True):
     """All interleavings of n workers' steps (stateless DFS with prefix replay, points discovered dynamically)."""
     ex = Exploration(n)
     lock = threading.Lock()
@@ -641,7 +649,7 @@ def explore(pool, n, fresh, observe, rerun=True):
             if ex.runs > MAX_SCHEDULES:
                 ex.capped = "more than %d schedule runs for N=%d" % (MAX_SCHEDULES, n)
                 return []
-        run = group.run(n, prefix, fresh, observe)
+        run = group.run(n, prefix, fresh, observe, lazy=lazy)
         sched = run.schedule
         with lock:
             for d, s in enumerate(run.steps):
@@ -652,7 +660,7 @@ def explore(pool, n, fresh, observe, rerun=True):
                     node[1].add(s.w)
         if run.status == "complete":
             if rerun:
-                again = group.run(n, sched, fresh, observe, strict=True)
+                again = group.run(n, sched, fresh, observe, strict=True, lazy=lazy)
                 with lock:
                     ex.reruns += 1
                     if again.observations() != run.observations():
